@@ -134,8 +134,10 @@ class _Cursor(object):
         vals = set()
         for x in walk(self.f):
             if x.get('kind') == 'VarDecl' and '%s#%s' % (x.get('name'), x.get('id')) == key and kids(x):
-                v = Folder(self.u).fold(kids(x)[-1])
-                vals.add(v)
+                ini = peel(kids(x)[-1])
+                arms = kids(ini)[1:] if ini is not None and ini.get('kind') == 'ConditionalOperator' else [kids(x)[-1]]
+                for arm in arms:
+                    vals.add(Folder(self.u).fold(arm))
             if x.get('kind') == 'BinaryOperator' and x.get('opcode') == '=' and self.keys.key(kids(x)[0]) == key:
                 vals.add(Folder(self.u).fold(kids(x)[1]))
         return vals
@@ -285,10 +287,15 @@ def check_cursor(ctx):
               'DataLength is not a sum of count*width terms', construct='cursor:datalength')
     # in Load: locate len, tbuf, bp
     hdr = [x for x in walk(f) if x.get('kind') == 'VarDecl' and qtype(x).endswith('Header')]
-    tl = [x for x in walk(f) if x.get('kind') == 'VarDecl' and x.get('name') and kids(x) and keys.key(kids(x)[-1]) == 'n:4'
-          and int_type(dtype(x))]
     lens = [x for x in walk(f) if x.get('kind') == 'VarDecl' and kids(x) and
             re.match(r'^\w+#0x[0-9a-f]+\.DataLength\(\w+#0x[0-9a-f]+\)$', keys.key(kids(x)[-1]))]
+    # the time width in use: the integer local handed to DataLength for the block that is decoded
+    tl = []
+    if len(lens) == 1:
+        m_ = re.match(r'^\w+#0x[0-9a-f]+\.DataLength\(\w+#(0x[0-9a-f]+)\)$', keys.key(kids(lens[0])[-1]))
+        d_ = u.by_id.get(m_.group(1)) if m_ else None
+        if d_ is not None and d_.get('kind') == 'VarDecl' and int_type(dtype(d_)):
+            tl = [d_]
     if len(hdr) != 1 or len(lens) != 1 or len(tl) != 1:
         raise AnalysisBroken('C12-cursor: header / length / time width locals not found (%d/%d/%d)' % (len(hdr), len(lens), len(tl)))
     hk = '%s#%s' % (hdr[0]['name'], hdr[0]['id'])
